@@ -5,9 +5,19 @@ usage: seed_sweep.py [ids...]      results: /verif/seeded/RESULTS.json and each 
 import json, os, re, subprocess, sys, time
 V = "/verif"
 ids = sys.argv[1:] or sorted(os.listdir(f"{V}/seeded"))
+# several sweeps may run side by side (different SEEDWS scratch dirs): each then writes its own
+# results file (SEED_RESULTS), merged afterwards with `seed_sweep.py --merge f1 f2 ...`
+RESULTS = os.environ.get("SEED_RESULTS", f"{V}/seeded/RESULTS.json")
+if ids and ids[0] == "--merge":
+    res = json.load(open(f"{V}/seeded/RESULTS.json"))
+    for f in ids[1:]:
+        res.update(json.load(open(f)))
+    json.dump(dict(sorted(res.items())), open(f"{V}/seeded/RESULTS.json", "w"), indent=1)
+    print("detected", sum(1 for v in res.values() if v.get("detected")), "of", len(res))
+    sys.exit(0)
 res = {}
 try:
-    res = json.load(open(f"{V}/seeded/RESULTS.json"))
+    res = json.load(open(RESULTS))
 except Exception:
     pass
 for sid in ids:
@@ -35,5 +45,5 @@ for sid in ids:
         json.dump(m, open(f"{d}/meta.json", "w"), indent=1)
     except Exception as e:
         print("meta update failed", e)
-    json.dump(res, open(f"{V}/seeded/RESULTS.json", "w"), indent=1)
+    json.dump(res, open(RESULTS, "w"), indent=1)
 print("detected", sum(1 for v in res.values() if v.get("detected")), "of", len(res))
